@@ -60,6 +60,9 @@ type FuncCtx struct {
 	globals     map[*types.Var]Val
 	pcParts     map[string][]string
 	nclosure    int
+	heapInit    map[string]Term
+	heapSort    map[string]string
+	heapWritten map[string]bool
 	hdrOnce     sync.Once
 	hdr         string
 	hdrLines    []string
@@ -376,7 +379,9 @@ func (fx *FuncCtx) fresh(t types.Type, hint string) Val {
 		return fx.freshStruct("", u, hint)
 	case *types.Pointer:
 		if isErrorLike(t) {
-			return VErr{fx.declare(sortInt, hint)}
+			r := fx.declare(sortInt, hint)
+			fx.emit(fmt.Sprintf("(assert (or (= %s 0) (>= %s 1000)))", r, r))
+			return VErr{r}
 		}
 		if isBufferPtr(t) {
 			return fx.fresh(u.Elem(), hint)
@@ -389,12 +394,14 @@ func (fx *FuncCtx) fresh(t types.Type, hint string) Val {
 			if _, ok := n.Underlying().(*types.Struct); ok {
 				r := fx.declare(sortInt, hint)
 				fx.emit(fmt.Sprintf("(assert (<= 0 %s))", r))
-				return VRef{r, n.Obj().Name()}
+				return VRef{r, qualifiedElem(n)}
 			}
 		}
 	case *types.Interface:
 		if isErrorLike(t) {
-			return VErr{fx.declare(sortInt, hint)}
+			r := fx.declare(sortInt, hint)
+			fx.emit(fmt.Sprintf("(assert (<= 0 %s))", r))
+			return VErr{r}
 		}
 		if u.NumMethods() == 0 {
 			tag := fx.declare(sortInt, hint+"_tag")
@@ -468,7 +475,7 @@ func (fx *FuncCtx) zero(t types.Type) Val {
 			return VErr{"0"}
 		}
 		if n, ok := u.Elem().(*types.Named); ok {
-			return VRef{"0", n.Obj().Name()}
+			return VRef{"0", qualifiedElem(n)}
 		}
 	case *types.Interface:
 		if isErrorLike(t) {
